@@ -957,11 +957,13 @@ def _get_constraints(constraints):
             if "fun" not in constraint or not callable(constraint["fun"]):
                 raise ValueError("The constraint function must be callable.")
             nonlinear_constraints.append(
-                {
-                    "fun": constraint["fun"],
-                    "type": constraint["type"],
-                    "args": constraint.get("args", ()),
-                }
+                NonlinearConstraint(
+                    lambda x, fun=constraint["fun"], args=tuple(
+                        constraint.get("args", ())
+                    ): fun(x, *args),
+                    np.zeros(1),
+                    np.full(1, 0.0 if constraint["type"] == "eq" else np.inf),
+                )
             )
         else:
             raise TypeError(
